@@ -144,9 +144,9 @@ PROPS = {
                 "receive with 0-3 descendant blocks pooled across a momentum, and 2-6 addresses rebuilt by one momentum that "
                 "forks some of them; distinct = distinct (op,result) lines",
         "partial": "data-race freedom / readers never observing a half-applied block are runtime properties of Go's memory "
-                   "model, not theorems; the pool state machine (model and stream) covers one address and one-block transactions: "
-                   "contract receives with descendant blocks and the cross-address early return of rebuild (candidate F12) are "
-                   "outside the model (negative witness skipped_rebuild_breaks_single_chain)",
+                   "model, not theorems; the pool state machine (model and stream) covers one address and one-block transactions; "
+                   "contract receives with descendant blocks are covered by the pool-batch monitors only; independence of the "
+                   "addresses in rebuild is the regenerated fact rebuild_no_early_return plus the pool-batch multi-address monitor",
         "assumptions": ["accepted user blocks carry TotalPlasma <= MaxPlasmaForAccountBlock and 0 < BasePlasma <= "
                         "AccountBlockBasePlasma + ABByteDataPlasma*MaxDataLength (vm.enoughPlasma); blocks of embedded "
                         "addresses carry TotalPlasma = BasePlasma = 0"],
